@@ -7,6 +7,8 @@ import PyElf.Spec.DwarfStructs
 import PyElf.Model.Env
 import PyElf.Driver.C16
 import PyElf.Driver.Tie
+import PyElf.Driver.C04
+import PyElf.Driver.C09
 import PyElf.Driver.C05
 import PyElf.Driver.C07
 import PyElf.Driver.C15
@@ -68,6 +70,8 @@ def handle (req : Json) : Except String Json := do
   | "con" => handleCon req
   | "C16" => Driver.C16.handle req
   | "tie" => Driver.Tie.handle req
+  | "C04" => Driver.C04.handle req
+  | "C09" => Driver.C09.handle req
   | "C05" => Driver.C05.handle req
   | "C07" => Driver.C07.handle req
   | "C15" => Driver.C15.handle req
